@@ -90,7 +90,12 @@ func NewCommentReader(r io.Reader, startMatches, endMatches [][]byte, isComments
 
 		var extra int
 		left := data[pos+len(startMatches[index]):]
-		if extra = bytes.Index(left, endMatches[index]); extra == -1 {
+		if isComments[index] {
+			extra = bytes.Index(left, endMatches[index])
+		} else {
+			extra = indexUnescaped(left, endMatches[index])
+		}
+		if extra == -1 {
 			if atEOF {
 				if requiredMatches[index] {
 					return 0, nil, commentNotMatch
@@ -144,6 +149,21 @@ func (v *commentReader) Read(p []byte) (n int, err error) {
 	}
 
 	return
+}
+
+// get the first match of sep in data, ignore the bytes escaped by backslash,
+// for example, the \" in string "a\"b" is not the end of string.
+func indexUnescaped(data, sep []byte) int {
+	for i := 0; i < len(data); i++ {
+		if data[i] == '\\' {
+			i++
+			continue
+		}
+		if bytes.HasPrefix(data[i:], sep) {
+			return i
+		}
+	}
+	return -1
 }
 
 // get the first match in flags.
